@@ -282,6 +282,14 @@ pub fn gen_case(r: &mut Rng, out: &mut String, with_queries: bool) {
     let nkeys = r.range(1, 6) as usize;
     let nops = r.range(5, 40);
     writeln!(out, "new b0").unwrap();
+    if r.chance(1, 6) {
+        // the history starts from a value of the shared catalogue (gen/zoo.rs) instead of the empty bitmap
+        super::zoo::zoo_build(r, out, "b0");
+        writeln!(out, "dump b0").unwrap();
+        if with_queries {
+            queries(r, out, "b0", nkeys);
+        }
+    }
     if r.chance(1, 10) {
         // dozens of tiny chunks around the ones the history works on
         writeln!(out, "extend b0{}", many_chunk_values(r)).unwrap();
@@ -339,7 +347,17 @@ pub fn gen_case(r: &mut Rng, out: &mut String, with_queries: bool) {
                 writeln!(out, "contains_range b0 {} {}", lo, hi).unwrap();
                 writeln!(out, "range_cardinality b0 {} {}", lo, hi).unwrap();
             }
-            writeln!(out, "remove_range b0 {} {}", lo, hi).unwrap();
+            if r.chance(1, 3) {
+                // an insertion that STARTS (or ends) exactly on a value that is already there, of a length around the limits
+                let len = range_len(r);
+                if r.chance(1, 2) {
+                    writeln!(out, "insert_range b0 in:{} in:{}", a, (a + len - 1).min(u32::MAX as u64)).unwrap();
+                } else {
+                    writeln!(out, "insert_range b0 in:{} in:{}", b.saturating_sub(len - 1), b).unwrap();
+                }
+            } else {
+                writeln!(out, "remove_range b0 {} {}", lo, hi).unwrap();
+            }
             writeln!(out, "dump b0").unwrap();
         }
         if with_queries && r.chance(1, 3) {
